@@ -140,6 +140,8 @@ def part_histories(rep):
         cases.append({"id": len(cases), "h": h, "observe": "last", "battery": bpath, "src": "enum"})
     # ---- 2. simulation walks ----------------------------------------------------------------------------
     per_worker = 32 if quick else 250
+    if os.environ.get("C08_WALKS"):                  # scratch runs on a loaded machine (mutant trials): fewer walks
+        per_worker = int(os.environ["C08_WALKS"])
     sim = tlc_run(pid, "C08", SIM_CFG, env={"MAXLEN": "12"}, timeout=900, tag="sim", simulate="num=%d" % per_worker,
                   depth=14, seed=rep.seed)
     rep.add_tlc("ObjModel -simulate walks depth 12", sim)
@@ -147,7 +149,7 @@ def part_histories(rep):
     for x in sim.records:
         if "h" in x:
             walks.setdefault(hkey(x["h"]), x["h"])
-    if len(walks) < per_worker * 4:
+    if len(walks) < per_worker * 4 or not walks:
         raise Machinery("simulation produced only %d walks" % len(walks))
     if not quick:
         sim2 = tlc_run(pid, "C08", SIM_CFG, env={"MAXLEN": "25"}, timeout=900, tag="sim25", simulate="num=60",
